@@ -1,42 +1,287 @@
-(** * Properties: ONLY the pinned theorems of the properties, each closed by
-    [exact] of a lemma proved elsewhere, with [Print Assumptions] beneath.
-    (bin/pqv re-checks every statement with [Check (name : statement)] and
-    every [Print Assumptions] on each run.) *)
-From PQV Require Import AbsPQProofs AbsCostProofs ListProofs IterProofs.
+(** * Properties: ONLY the pinned theorems of the properties (generated from
+    bin/pqv_theorems.json by bin/gen_properties), each closed by applying a
+    lemma proved elsewhere, with [Print Assumptions] beneath.  bin/pqv
+    re-checks every statement with [Check (name : forall ..., statement)] and
+    every [Print Assumptions] on each run. *)
+From PQV Require Import AbsPQProofs AbsCostProofs ListProofs IterProofs Final.
 From PQV Require Export PropSpec.
 
-(** ** C05 (abstract layer): comparison counts of the list-level algorithms *)
-Theorem C05_pq_cost : forall (E P : Type) (pr : E -> P) (ple : P -> P -> bool),
-  pq_cost_stmt pr ple.
-Proof. exact @pq_cost. Qed.
+(* C01 *)
+Theorem C01_invariant : forall (I P : Type) (keq : I -> I -> bool) (hash : I -> N) (ple : P -> P -> bool) (peq : P -> P -> bool) (alloc_limit : N), run_good_stmt keq hash ple peq alloc_limit.
+Proof. intros; apply F_run_good. Qed.
+Print Assumptions C01_invariant.
+
+(* C01 *)
+Theorem C01_step : forall (I P : Type) (keq : I -> I -> bool) (hash : I -> N) (ple : P -> P -> bool) (peq : P -> P -> bool) (alloc_limit : N), step_good_stmt keq hash ple peq alloc_limit.
+Proof. intros; apply F_step_good. Qed.
+Print Assumptions C01_step.
+
+(* C01 *)
+Theorem C01_peek_is_max : forall (I P : Type) (keq : I -> I -> bool) (hash : I -> N) (ple : P -> P -> bool), pq_peek_stmt keq hash ple.
+Proof. intros; apply F_pq_peek. Qed.
+Print Assumptions C01_peek_is_max.
+
+(* C01 *)
+Theorem C01_pop_is_peek : forall (I P : Type) (keq : I -> I -> bool) (hash : I -> N) (ple : P -> P -> bool), pq_pop_stmt keq hash ple.
+Proof. intros; apply F_pq_pop. Qed.
+Print Assumptions C01_pop_is_peek.
+
+(* C01 *)
+Theorem C01_pop_if_sees_peek : forall (I P : Type) (keq : I -> I -> bool) (hash : I -> N) (ple : P -> P -> bool), pq_pop_if_stmt keq hash ple.
+Proof. intros; apply F_pq_pop_if. Qed.
+Print Assumptions C01_pop_if_sees_peek.
+
+(* C01 *)
+Theorem C01_peek_mut_is_peek : forall (I P : Type) (keq : I -> I -> bool) (hash : I -> N) (ple : P -> P -> bool), pq_peek_mut_stmt keq hash ple.
+Proof. intros; apply F_pq_peek_mut. Qed.
+Print Assumptions C01_peek_mut_is_peek.
+
+(* C02 *)
+Theorem C02_invariant : forall (I P : Type) (keq : I -> I -> bool) (hash : I -> N) (ple : P -> P -> bool) (peq : P -> P -> bool) (alloc_limit : N), run_good_stmt keq hash ple peq alloc_limit.
+Proof. intros; apply F_run_good. Qed.
+Print Assumptions C02_invariant.
+
+(* C02 *)
+Theorem C02_peek_min_max : forall (I P : Type) (keq : I -> I -> bool) (hash : I -> N) (ple : P -> P -> bool), dpq_peek_stmt keq hash ple.
+Proof. intros; apply F_dpq_peek. Qed.
+Print Assumptions C02_peek_min_max.
+
+(* C02 *)
+Theorem C02_pop_is_peek : forall (I P : Type) (keq : I -> I -> bool) (hash : I -> N) (ple : P -> P -> bool), dpq_pop_stmt keq hash ple.
+Proof. intros; apply F_dpq_pop. Qed.
+Print Assumptions C02_pop_is_peek.
+
+(* C02 *)
+Theorem C02_pop_if_sees_peek : forall (I P : Type) (keq : I -> I -> bool) (hash : I -> N) (ple : P -> P -> bool), dpq_pop_if_stmt keq hash ple.
+Proof. intros; apply F_dpq_pop_if. Qed.
+Print Assumptions C02_pop_if_sees_peek.
+
+(* C02 *)
+Theorem C02_peek_mut_is_peek : forall (I P : Type) (keq : I -> I -> bool) (hash : I -> N) (ple : P -> P -> bool), dpq_peek_mut_stmt keq hash ple.
+Proof. intros; apply F_dpq_peek_mut. Qed.
+Print Assumptions C02_peek_mut_is_peek.
+
+(* C03 *)
+Theorem C03_contents : forall (I P : Type) (keq : I -> I -> bool) (hash : I -> N) (ple : P -> P -> bool), C03_contents_stmt keq hash ple.
+Proof. intros; apply F_C03_contents. Qed.
+Print Assumptions C03_contents.
+
+(* C03 *)
+Theorem C03_push : forall (I P : Type) (keq : I -> I -> bool) (hash : I -> N) (ple : P -> P -> bool), C03_push_stmt keq hash ple.
+Proof. intros; apply F_C03_push. Qed.
+Print Assumptions C03_push.
+
+(* C03 *)
+Theorem C03_change_priority : forall (I P : Type) (keq : I -> I -> bool) (hash : I -> N) (ple : P -> P -> bool), C03_change_stmt keq hash ple.
+Proof. intros; apply F_C03_change. Qed.
+Print Assumptions C03_change_priority.
+
+(* C03 *)
+Theorem C03_change_priority_by : forall (I P : Type) (keq : I -> I -> bool) (hash : I -> N) (ple : P -> P -> bool), C03_change_by_stmt keq hash ple.
+Proof. intros; apply F_C03_change_by. Qed.
+Print Assumptions C03_change_priority_by.
+
+(* C03 *)
+Theorem C03_remove : forall (I P : Type) (keq : I -> I -> bool) (hash : I -> N) (ple : P -> P -> bool), C03_remove_stmt keq hash ple.
+Proof. intros; apply F_C03_remove. Qed.
+Print Assumptions C03_remove.
+
+(* C03 *)
+Theorem C03_pop : forall (I P : Type) (keq : I -> I -> bool) (hash : I -> N) (ple : P -> P -> bool), C03_pop_stmt keq hash ple.
+Proof. intros; apply F_C03_pop. Qed.
+Print Assumptions C03_pop.
+
+(* C03 *)
+Theorem C03_reachable : forall (I P : Type) (keq : I -> I -> bool) (hash : I -> N) (ple : P -> P -> bool) (peq : P -> P -> bool) (alloc_limit : N), run_safe_stmt keq hash ple peq alloc_limit.
+Proof. intros; apply F_run_safe. Qed.
+Print Assumptions C03_reachable.
+
+(* C04 *)
+Theorem C04_step : forall (I P : Type) (keq : I -> I -> bool) (hash : I -> N) (ple : P -> P -> bool) (peq : P -> P -> bool) (alloc_limit : N), step_safe_stmt keq hash ple peq alloc_limit.
+Proof. intros; apply F_step_safe. Qed.
+Print Assumptions C04_step.
+
+(* C04 *)
+Theorem C04_run : forall (I P : Type) (keq : I -> I -> bool) (hash : I -> N) (ple : P -> P -> bool) (peq : P -> P -> bool) (alloc_limit : N), run_safe_stmt keq hash ple peq alloc_limit.
+Proof. intros; apply F_run_safe. Qed.
+Print Assumptions C04_run.
+
+(* C05 *)
+Theorem C05_step_cost : forall (I P : Type) (keq : I -> I -> bool) (hash : I -> N) (ple : P -> P -> bool) (peq : P -> P -> bool) (alloc_limit : N), step_cost_stmt keq hash ple peq alloc_limit.
+Proof. intros; apply F_step_cost. Qed.
+Print Assumptions C05_step_cost.
+
+(* C05 *)
+Theorem C05_pq_cost : forall (E P : Type) (pr : E -> P) (ple : P -> P -> bool), pq_cost_stmt pr ple.
+Proof. intros; apply @AbsCostProofs.pq_cost. Qed.
 Print Assumptions C05_pq_cost.
-Theorem C05_dpq_cost : forall (E P : Type) (pr : E -> P) (ple : P -> P -> bool),
-  dpq_cost_stmt pr ple.
-Proof. exact @dpq_cost. Qed.
+
+(* C05 *)
+Theorem C05_dpq_cost : forall (E P : Type) (pr : E -> P) (ple : P -> P -> bool), dpq_cost_stmt pr ple.
+Proof. intros; apply @AbsCostProofs.dpq_cost. Qed.
 Print Assumptions C05_dpq_cost.
 
-(** ** C09: mutable iteration *)
-Theorem C09_itermut : forall I P : Type, @itermut_stmt I P.
-Proof. exact @itermut_ok. Qed.
+(* C06 *)
+Theorem C06_pq_into_sorted_vec : forall (I P : Type) (keq : I -> I -> bool) (hash : I -> N) (ple : P -> P -> bool), pq_into_sorted_vec_stmt keq hash ple.
+Proof. intros; apply F_pq_into_sorted_vec. Qed.
+Print Assumptions C06_pq_into_sorted_vec.
+
+(* C06 *)
+Theorem C06_dpq_into_sorted_vec : forall (I P : Type) (keq : I -> I -> bool) (hash : I -> N) (ple : P -> P -> bool), dpq_into_sorted_vec_stmt keq hash ple.
+Proof. intros; apply F_dpq_into_sorted_vec. Qed.
+Print Assumptions C06_dpq_into_sorted_vec.
+
+(* C06 *)
+Theorem C06_dpq_sorted_iter : forall (I P : Type) (keq : I -> I -> bool) (hash : I -> N) (ple : P -> P -> bool), dpq_sorted_iter_stmt keq hash ple.
+Proof. intros; apply F_dpq_sorted_iter. Qed.
+Print Assumptions C06_dpq_sorted_iter.
+
+(* C06 *)
+Theorem C06_pq_sorted_iter : forall (I P : Type) (keq : I -> I -> bool) (hash : I -> N) (ple : P -> P -> bool), pq_sorted_iter_stmt keq hash ple.
+Proof. intros; apply F_pq_sorted_iter. Qed.
+Print Assumptions C06_pq_sorted_iter.
+
+(* C07 *)
+Theorem C07_from_vec : forall (I P : Type) (keq : I -> I -> bool) (hash : I -> N) (ple : P -> P -> bool), C07_from_vec_stmt keq hash ple.
+Proof. intros; apply F_C07_from_vec. Qed.
+Print Assumptions C07_from_vec.
+
+(* C07 *)
+Theorem C07_from_iter : forall (I P : Type) (keq : I -> I -> bool) (hash : I -> N) (ple : P -> P -> bool) (alloc_limit : N), C07_from_iter_stmt keq hash ple alloc_limit.
+Proof. intros; apply F_C07_from_iter. Qed.
+Print Assumptions C07_from_iter.
+
+(* C07 *)
+Theorem C07_extend : forall (I P : Type) (keq : I -> I -> bool) (hash : I -> N) (ple : P -> P -> bool) (alloc_limit : N), C07_extend_stmt keq hash ple alloc_limit.
+Proof. intros; apply F_C07_extend. Qed.
+Print Assumptions C07_extend.
+
+(* C07 *)
+Theorem C07_append : forall (I P : Type) (keq : I -> I -> bool) (hash : I -> N) (ple : P -> P -> bool), C07_append_stmt keq hash ple.
+Proof. intros; apply F_C07_append. Qed.
+Print Assumptions C07_append.
+
+(* C07 *)
+Theorem C07_convert : forall (I P : Type) (keq : I -> I -> bool) (hash : I -> N) (ple : P -> P -> bool), C07_convert_stmt keq hash ple.
+Proof. intros; apply F_C07_convert. Qed.
+Print Assumptions C07_convert.
+
+(* C08 *)
+Theorem C08_retain : forall (I P : Type) (keq : I -> I -> bool) (hash : I -> N) (ple : P -> P -> bool), C08_retain_stmt keq hash ple.
+Proof. intros; apply F_C08_retain. Qed.
+Print Assumptions C08_retain.
+
+(* C08 *)
+Theorem C08_pop_if : forall (I P : Type) (keq : I -> I -> bool) (hash : I -> N) (ple : P -> P -> bool), C08_pop_if_stmt keq hash ple.
+Proof. intros; apply F_C08_pop_if. Qed.
+Print Assumptions C08_pop_if.
+
+(* C08 *)
+Theorem C08_itermut : forall (I P : Type) (keq : I -> I -> bool) (hash : I -> N) (ple : P -> P -> bool), C08_itermut_stmt keq hash ple.
+Proof. intros; apply F_C08_itermut. Qed.
+Print Assumptions C08_itermut.
+
+(* C09 *)
+Theorem C09_itermut : forall (I P : Type), @itermut_stmt I P.
+Proof. intros; apply @IterProofs.itermut_ok. Qed.
 Print Assumptions C09_itermut.
-Theorem C09_itermut_exact : forall I P : Type, @itermut_exact_stmt I P.
-Proof. exact @itermut_exact. Qed.
+
+(* C09 *)
+Theorem C09_itermut_exact : forall (I P : Type), @itermut_exact_stmt I P.
+Proof. intros; apply @IterProofs.itermut_exact. Qed.
 Print Assumptions C09_itermut_exact.
-Theorem C09_itermut_fused : forall I P : Type, @itermut_fused_stmt I P.
-Proof. exact @itermut_fused. Qed.
+
+(* C09 *)
+Theorem C09_itermut_fused : forall (I P : Type), @itermut_fused_stmt I P.
+Proof. intros; apply @IterProofs.itermut_fused. Qed.
 Print Assumptions C09_itermut_fused.
-Theorem C09_itermut_adaptor_len : forall I P : Type, @itermut_adaptor_len_stmt I P.
-Proof. exact @itermut_adaptor_len. Qed.
+
+(* C09 *)
+Theorem C09_itermut_adaptor_len : forall (I P : Type), @itermut_adaptor_len_stmt I P.
+Proof. intros; apply @IterProofs.itermut_adaptor_len. Qed.
 Print Assumptions C09_itermut_adaptor_len.
 
-(** ** C13: the non-mutable iterators *)
-Theorem C13_dq : forall I P : Type, @dq_stmt I P.
-Proof. exact @dq_ok. Qed.
+(* C11 *)
+Theorem C11_push_increase_decrease : forall (I P : Type) (keq : I -> I -> bool) (hash : I -> N) (ple : P -> P -> bool), C11_stmt keq hash ple.
+Proof. intros; apply F_C11. Qed.
+Print Assumptions C11_push_increase_decrease.
+
+(* C12 *)
+Theorem C12_item_kept : forall (I P : Type) (keq : I -> I -> bool) (hash : I -> N) (ple : P -> P -> bool), C12_stmt keq hash ple.
+Proof. intros; apply F_C12. Qed.
+Print Assumptions C12_item_kept.
+
+(* C12 *)
+Theorem C12_get_mut : forall (I P : Type) (keq : I -> I -> bool) (hash : I -> N) (ple : P -> P -> bool), C12_get_mut_stmt keq hash ple.
+Proof. intros; apply F_C12_get_mut. Qed.
+Print Assumptions C12_get_mut.
+
+(* C12 *)
+Theorem C12_peek_mut_pq : forall (I P : Type) (keq : I -> I -> bool) (hash : I -> N) (ple : P -> P -> bool), pq_peek_mut_stmt keq hash ple.
+Proof. intros; apply F_pq_peek_mut. Qed.
+Print Assumptions C12_peek_mut_pq.
+
+(* C12 *)
+Theorem C12_peek_mut_dpq : forall (I P : Type) (keq : I -> I -> bool) (hash : I -> N) (ple : P -> P -> bool), dpq_peek_mut_stmt keq hash ple.
+Proof. intros; apply F_dpq_peek_mut. Qed.
+Print Assumptions C12_peek_mut_dpq.
+
+(* C13 *)
+Theorem C13_dq : forall (I P : Type), @dq_stmt I P.
+Proof. intros; apply @IterProofs.dq_ok. Qed.
 Print Assumptions C13_dq.
-Theorem C13_dq_adaptor_len : forall I P : Type, @dq_adaptor_len_stmt I P.
-Proof. exact @dq_adaptor_len. Qed.
+
+(* C13 *)
+Theorem C13_dq_adaptor_len : forall (I P : Type), @dq_adaptor_len_stmt I P.
+Proof. intros; apply @IterProofs.dq_adaptor_len. Qed.
 Print Assumptions C13_dq_adaptor_len.
-Theorem C13_sorted_adaptor_len : forall (I P : Type) (ple : P -> P -> bool),
-  @sorted_adaptor_len_stmt I P ple.
-Proof. exact @sorted_adaptor_len. Qed.
+
+(* C13 *)
+Theorem C13_sorted_adaptor_len : forall (I P : Type) (ple : P -> P -> bool), @sorted_adaptor_len_stmt I P ple.
+Proof. intros; apply @IterProofs.sorted_adaptor_len. Qed.
 Print Assumptions C13_sorted_adaptor_len.
+
+(* C13 *)
+Theorem C13_dpq_sorted_iter : forall (I P : Type) (keq : I -> I -> bool) (hash : I -> N) (ple : P -> P -> bool), dpq_sorted_iter_stmt keq hash ple.
+Proof. intros; apply F_dpq_sorted_iter. Qed.
+Print Assumptions C13_dpq_sorted_iter.
+
+(* C14 *)
+Theorem C14_eq : forall (I P : Type) (keq : I -> I -> bool) (hash : I -> N) (ple : P -> P -> bool) (peq : P -> P -> bool), C14_eq_stmt keq hash ple peq.
+Proof. intros; apply F_C14_eq. Qed.
+Print Assumptions C14_eq.
+
+(* C15 *)
+Theorem C15_roundtrip : forall (I P : Type) (keq : I -> I -> bool) (hash : I -> N) (ple : P -> P -> bool) (peq : P -> P -> bool), C15_roundtrip_stmt keq hash ple peq.
+Proof. intros; apply F_C15_roundtrip. Qed.
+Print Assumptions C15_roundtrip.
+
+(* C15 *)
+Theorem C15_total : forall (I P : Type) (keq : I -> I -> bool) (hash : I -> N) (ple : P -> P -> bool), C15_total_stmt keq hash ple.
+Proof. intros; apply F_C15_total. Qed.
+Print Assumptions C15_total.
+
+(* C16 *)
+Theorem C16_drain_clear : forall (I P : Type) (keq : I -> I -> bool) (ple : P -> P -> bool), @C16_stmt I P keq ple.
+Proof. intros; apply F_C16. Qed.
+Print Assumptions C16_drain_clear.
+
+(* C16 *)
+Theorem C16_drain_yields : forall (I P : Type), @dq_stmt I P.
+Proof. intros; apply @IterProofs.dq_ok. Qed.
+Print Assumptions C16_drain_yields.
+
+(* C17 *)
+Theorem C17_capacity : forall (I P : Type) (alloc_limit : N), @C17_stmt I P alloc_limit.
+Proof. intros; apply F_C17. Qed.
+Print Assumptions C17_capacity.
+
+(* C17 *)
+Theorem C17_cap_ops_safe : forall (I P : Type) (keq : I -> I -> bool) (hash : I -> N) (ple : P -> P -> bool) (peq : P -> P -> bool) (alloc_limit : N), step_safe_stmt keq hash ple peq alloc_limit.
+Proof. intros; apply F_step_safe. Qed.
+Print Assumptions C17_cap_ops_safe.
+
+(* C18 *)
+Theorem C18_lookup : forall (I P : Type) (keq : I -> I -> bool), @C18_lookup_stmt I P keq.
+Proof. intros; apply F_C18_lookup. Qed.
+Print Assumptions C18_lookup.
